@@ -1098,3 +1098,45 @@ impl std::io::Seek for Trickle<'_> {
         self.inner.seek(pos)
     }
 }
+
+
+/// A `tracing` subscriber that enables every callsite and discards everything: with it installed the arguments of every
+/// `trace!` / `debug!` / `#[instrument]` in the library are evaluated, as they are when a user turns on trace logging.
+/// Installed process-wide when VP_TRACE is set (the dev-profile pass of the quick tier sets it).
+pub struct EverythingEnabled;
+
+impl tracing::Subscriber for EverythingEnabled {
+    fn enabled(&self, _: &tracing::Metadata<'_>) -> bool {
+        true
+    }
+    fn new_span(&self, _: &tracing::span::Attributes<'_>) -> tracing::span::Id {
+        tracing::span::Id::from_u64(1)
+    }
+    fn record(&self, _: &tracing::span::Id, _: &tracing::span::Record<'_>) {}
+    fn record_follows_from(&self, _: &tracing::span::Id, _: &tracing::span::Id) {}
+    fn event(&self, event: &tracing::Event<'_>) {
+        // visit the fields so that lazily formatted arguments are really formatted (into nothing)
+        struct Sink;
+        impl tracing::field::Visit for Sink {
+            fn record_debug(&mut self, _: &tracing::field::Field, value: &dyn std::fmt::Debug) {
+                use std::fmt::Write;
+                struct Null;
+                impl Write for Null {
+                    fn write_str(&mut self, _: &str) -> std::fmt::Result {
+                        Ok(())
+                    }
+                }
+                let _ = write!(Null, "{value:?}");
+            }
+        }
+        event.record(&mut Sink);
+    }
+    fn enter(&self, _: &tracing::span::Id) {}
+    fn exit(&self, _: &tracing::span::Id) {}
+}
+
+pub fn maybe_install_trace_subscriber() {
+    if std::env::var("VP_TRACE").is_ok() {
+        let _ = tracing::subscriber::set_global_default(EverythingEnabled);
+    }
+}
